@@ -46,6 +46,8 @@ def _scn(draw):
     scn = draw(hist.scenarios(CFG))
     if not any(s["op"] in ("create", "create_sf") for s in scn["steps"]):
         scn["steps"].append({"op": "create", "root": "", "formats": draw(gen.formats(2)), "flags": []})
+    if draw(st.integers(0, 5)) == 0 and "big.bin" not in hist.top_names_used(scn):
+        scn["tree"]["big.bin"] = ["3c", (1 << 20) + draw(st.sampled_from([1, 4097, 300001]))]  # beyond one read chunk, not a multiple of it
     scn["tail"] = draw(st.sampled_from(["none", "none", "seal_all", "seal_all", "restore_all"]))
     # a user ignore pattern in the history: from the first generation on (the matching files are never recorded), or only
     # from a later generation on (they were recorded before and stay part of the summary)
